@@ -484,7 +484,7 @@ def pair_cases(r, t, nvals, npairs):
 
 
 def gen(r, tier):
-    n = {"quick": 2600, "search": 9000, "thorough": 60000}[tier]
+    n = {"quick": 2600, "search": 9000, "thorough": 30000}[tier]
     cases = []
     for t in FIXED_TYPES:
         cases += pair_cases(r, t, 6, 12 if tier == "quick" else 60)
